@@ -400,7 +400,7 @@ func genC11(t *rapid.T) ReqCase {
 	if g.Chance(1, 2) {
 		o.FixedOrder = true
 		o.MaxAlts = 7
-		o.BigTiers = true
+		o.BigTiers, o.ValueScales = true, true
 	}
 	gr := genRequest(t, o)
 	if mp := asM(gr.Req["methodParameters"]); str(mp["drawResolution"]) == "random" && len(asL(gr.Req["choseToMake"])) > 10 {
